@@ -155,6 +155,9 @@ fn main() {
         if p["settings"]["legacy_api"] == json!(true) {
             bump("api:process_file", &mut classes);
         }
+        if p["settings"]["in_src"].is_string() {
+            bump("api:in_src_dir", &mut classes);
+        }
         if rt.kind() == "Grmtools" || rt.kind() == "UserAction" {
             bump(&format!("parse-param:{}", rt.param()), &mut classes);
             if rt.has_unit() {
